@@ -241,6 +241,12 @@ Theorem C08_tracked_nobody_parked_on_a_true_comparison :
 Proof. exact TrackedList.never_parked_on_a_comparison_that_holds. Qed.
 Print Assumptions C08_tracked_nobody_parked_on_a_true_comparison.
 
+(** ... and no subscriber of an existing comparison is ever lost: it is parked on a comparison or has been scheduled *)
+Theorem C08_tracked_waiters_are_never_lost :
+  forall v ops p, In p (TrackedList.valid_subs v ops) -> TrackedList.accounted (TrackedList.run v ops) p.
+Proof. exact TrackedList.nobody_is_lost. Qed.
+Print Assumptions C08_tracked_waiters_are_never_lost.
+
 Theorem C08_tracked_set_wakes_the_waiters_of_every_true_comparison :
   forall v0 ops v,
     let s := TrackedList.run v0 ops in let s' := TrackedList.run v0 (ops ++ [TrackedList.SetTo v]) in
